@@ -61,6 +61,8 @@ func CorpusOps() []Op {
 		`{t{...F1 @skip(if:true) ...F1}} fragment F1 on T{name}`,
 		`{a1:t{name} a2:t{name req} t{x_id:id id}}`,
 		`{arg arg2:arg(x:1) arg3:arg(x:2,y:["a","b"])}`,
+		`{peers{id peer{id} ... on T{name times optStrs} ... on S{title}}}`,
+		`{t{times optStrs} ts{times}}`,
 	}
 	var out []Op
 	for _, q := range qs {
